@@ -95,6 +95,9 @@ def alphabet(kind):
     if kind == 'full':
         ops.append(('registerUtilityFactory', 'a', 0, ''))
         ops.append(('reinit',))
+    if kind in ('full', 'util'):
+        # the volatile per-component count cache disappears (what persistence does to `_v_` attributes on a load): rebuilt on demand
+        ops.append(('ghost',))
     return ops
 
 
@@ -206,6 +209,8 @@ def apply(w, m, op, col, hist):
     elif k == 'reinit':
         c.__init__('c')
         m.__init__()
+    elif k == 'ghost':
+        c._v_utility_registrations_cache = None
     return exp_ev, exp_ret, ret
 
 
